@@ -107,6 +107,7 @@ func (c *Ctx) PosStr(p token.Pos) string {
 
 // Ob records an obligation for the current rule. construct must be position independent.
 func (c *Ctx) Ob(construct string, pos token.Pos, ok bool, format string, args ...any) {
+	construct = strings.ReplaceAll(construct, " ", "_")
 	key := c.curRule + "|" + construct
 	c.seen[key]++
 	if n := c.seen[key]; n > 1 {
